@@ -17,7 +17,9 @@ ASSUMPTIONS = ["the universe has no named non-struct types, channels or maps", "
 
 BASE = ["int", "i64", "str", "bool", "f64", "S", "T"]
 SLICES = [(["int"], 1), (["str", "int"], 1), (["int", "str"], 1), (["i64", "f64"], 1), (["S", "int"], 1), (["int", "T"], 1),
-          (["int", "int", "str"], 2), (["str", "str", "i64"], 1), (["bool", "int"], 1), (["f64", "str"], 1), (["int", "i64", "str"], 3)]
+          (["int", "int", "str"], 2), (["str", "str", "i64"], 1), (["bool", "int"], 1), (["f64", "str"], 1), (["int", "i64", "str"], 3),
+          # key columns whose type is registered with only a hash function (H) or only an order (L)
+          (["H", "int"], 1), (["L", "int"], 1), (["int", "H", "int"], 2), (["int", "L", "str"], 2), (["int", "H", "int"], 1)]
 OUTS = ["-", "int", "bool", "i64", "str", "err", "int,err", "int,err,int", "[]int", "[]str,[]int", "int,str", "f64", "bool,bool"]
 
 
